@@ -70,7 +70,10 @@ def rand_tree(rng, depth):
         op = rng.choice(['+', '-', '*', '/', '&', '=', '<', '>', '<=', '>=', '<>'])
         return F.binop(op, P(rand_tree(rng, depth - 1)), P(rand_tree(rng, depth - 1)))
     if k < 0.6:
-        return F.neg(P(rand_tree(rng, depth - 1)))
+        sub = P(rand_tree(rng, depth - 1))
+        if rng.random() < 0.35:       # two (or three) minus signs in a row, as in the --x idiom
+            sub = F.neg(sub) if rng.random() < 0.8 else F.neg(F.neg(sub))
+        return F.neg(sub)
     x = rand_tree(rng, depth - 1)
     f = rng.choice(['ISERROR', 'ISERR', 'ISNA', 'ERROR.TYPE', 'IFERROR', 'IFNA', 'SUM', 'IF', 'IFERROR2'])
     if f == 'IFERROR':
@@ -131,6 +134,12 @@ def main(tier, replay=None):
                 asts.append(F.binop(op, pl, P(e)))
                 asts.append(F.call('ISERROR', F.binop(op, pl, P(e))))
                 asts.append(F.call('IFERROR', F.binop(op, P(e), pl), F.num('9')))
+    # an operand as long as a cell can hold (and longer): the error of the other operand is still the answer
+    for e in (F.call('NA'), F.binop('/', F.num('1'), F.num('0')), F.errlit(LIT[0]), F.call('ERRVA')):
+        for n in (32764, 33000):
+            pl = F.string('x' * n)
+            asts += [F.binop('&', P(e), pl), F.binop('&', pl, P(e)), F.call('ISNA', F.binop('&', pl, P(e))),
+                     F.call('ERROR.TYPE', F.binop('&', P(e), pl)), F.binop('=', pl, P(e)), F.binop('<', P(e), pl)]
     for e in srcs:
         for f in ('ISERROR', 'ISERR', 'ISNA', 'ERROR.TYPE'):
             asts.append(F.call(f, e))
